@@ -1,0 +1,20 @@
+//go:build verif
+
+package mtcp
+
+// Contracts for the contract verifier in /verif (govc). Comment-only; compiled only with the "verif" tag.
+
+// govc:func (*MTCPClient).Send property C12
+//@ requires blocksNonNil(bndl) && cbOff(bndl.CanonicalBlocks, 0) == 0
+//@ requires forall i int :: 0 <= i && i < len(bndl.CanonicalBlocks) ==> cbOff(bndl.CanonicalBlocks, i + 1) == cbOff(bndl.CanonicalBlocks, i) + (bndl.CanonicalBlocks[i].CRCType != 0 ? 8 : 6)
+//@ requires client != nil && client.reportChan != nil && !closed(client.reportChan)
+//@ ensures err != nil ==> sent(client.reportChan) == old(sent(client.reportChan)) + 1
+//@ ensures err == nil ==> sent(client.reportChan) == old(sent(client.reportChan))
+//@ ensures broken(client.conn) ==> err != nil
+
+// handleSender: one report per non-empty frame. A zero-length byte string (the client's keep-alive and its
+// post-send probe) never produces a report; a frame that does not parse ends the connection without a report.
+// govc:func (*MTCPServer).handleSender property C12
+//@ requires serv != nil && conn != nil && serv.reportChan != nil && !closed(serv.reportChan)
+//@ atcall NewConvergenceReceivedBundle: n != 0 && arg0 == serv && arg2 != nil
+//@ loop 0 invariant serv.reportChan == old(serv.reportChan) && !closed(serv.reportChan)
